@@ -22,28 +22,53 @@ class Impl:
     def keylog(self, lines):
         return [self.kl.Key(l) for l in lines]
 
-    def installed(self, ver, code, lines, cr, sr):
-        """Session.generate_keys on a stub session; returns 'K12 ...' / 'K13 ...' / 'Exn X' / 'NoDecryptor'"""
-        s = object.__new__(self.session.Session)
-        s.keylog = self.keylog(lines)
-        s.client_random, s.tls_version, s.extensions, s.compression_method = cr, getattr(self.V, ver), {}, 0
-        s.ipv6, s.server_ip, s.client_ip, s.server_port, s.client_port = False, b"\x01\x01\x01\x01", b"\x02\x02\x02\x02", 443, 50000
-        s.can_decrypt, s.decryptor = True, None
+    def hello_records(self, ver, code, cr, sr):
+        """minimal ClientHello / ServerHello records for this version and suite (record layer included)"""
+        hv = {"SSL30": b"\x03\x00", "TLS10": b"\x03\x01", "TLS11": b"\x03\x02", "TLS12": b"\x03\x03", "TLS13": b"\x03\x03"}[ver]
+        ch_body = hv + cr + b"\x00" + b"\x00\x02" + code.to_bytes(2, "big") + b"\x01\x00"
+        ch = b"\x01" + len(ch_body).to_bytes(3, "big") + ch_body
+        exts = b"\x00\x2b\x00\x02\x03\x04" if ver == "TLS13" else b""
+        sh_body = hv + sr + b"\x00" + code.to_bytes(2, "big") + b"\x00" + len(exts).to_bytes(2, "big") + exts
+        sh = b"\x02" + len(sh_body).to_bytes(3, "big") + sh_body
+        rec = lambda m: b"\x16" + hv + len(m).to_bytes(2, "big") + m
+        return rec(ch), rec(sh)
+
+    def installed(self, ver, code, lines, cr, sr, again=None):
+        """A real Session fed a synthetic ClientHello/ServerHello through handle_tls_record; keys read from its decryptor.
+        again=(cr2, sr2): a second handshake on the same session first uses (cr, sr), then (cr2, sr2) -- keys of the second are returned."""
+        from ref import synth
+        from tlexport.packet import Packet
+        from tlexport.tlsrecord import TlsRecord
+        frame = synth.tcp_frame(b"\x02\0\0\0\0\x01", b"\x02\0\0\0\0\x02", b"\x0a\0\0\x01", b"\x0a\0\0\x02", 50000, 443, 1000, 0, 0x18, b"x")
+        pkt = Packet(frame, 1.0)
         try:
-            s.generate_keys(getattr(self.V, ver), code.to_bytes(2, "big"), cr, sr)
+            s = self.session.Session(pkt, [443], self.keylog(lines), {}, True, False)
+            for (c, r) in ([(cr, sr)] + ([again] if again else [])):
+                chr_, shr = self.hello_records(ver, code, c, r)
+                s.handle_tls_record(TlsRecord(chr_, [pkt], False), False)
+                s.handle_tls_record(TlsRecord(shr, [pkt], True), True)
         except Exception as e:
             return "Exn " + type(e).__name__
         d = s.decryptor
-        if d is None:
+        if d is None or not s.can_decrypt:
             return "NoDecryptor"
 
         def o(x):
             return "None" if x is None else hx(x)
         if ver == "TLS13":
-            # parse_keys substitutes application keys for missing handshake keys; report what was derived
             return "K13 " + " ".join(o(x) for x in [d.client_handshake_key, d.server_handshake_key, d.client_application_key, d.server_application_key,
                                                     d.client_handshake_iv, d.server_handshake_iv, d.client_application_iv, d.server_application_iv])
         return "K12 " + " ".join(hx(x) for x in [d.client_mac, d.server_mac, d.client_key, d.server_key, d.client_iv, d.server_iv])
+
+
+def new_quic_session(impl, lines):
+    """a real QuicSession (its own constructor), QUIC v1"""
+    from ref import synth
+    from tlexport.packet import Packet
+    frame = synth.udp_frame(b"\x02\0\0\0\0\x01", b"\x02\0\0\0\0\x02", b"\x0a\0\0\x01", b"\x0a\0\0\x02", 50000, 443, b"\xc0" + bytes(30))
+    s = impl.qs.QuicSession(Packet(frame, 1.0), [443], impl.keylog(lines), {})
+    s.quic_version = impl.qd.QuicVersion.V1
+    return s
 
 
 def valid_for(ver, code, d):
@@ -122,7 +147,14 @@ def main():
                 lines = ["CLIENT_RANDOM %s %s" % (other.hex(), rb(48).hex()), "CLIENT_RANDOM %s %s" % (cr.hex(), ms.hex())]
                 if rng.randrange(2):
                     lines.reverse()
-            got = impl.installed(ver, code, lines, cr, sr)
+            rehandshake = (ver != "TLS13") and rng.randrange(4) == 0
+            if rehandshake:
+                # an earlier connection on the same 4-tuple (other randoms, its own key-log line): the keys installed for the later one are checked
+                cr0, sr0 = rb(32), rb(32)
+                lines.insert(0, "CLIENT_RANDOM %s %s" % (cr0.hex(), rb(48).hex()))
+                got = impl.installed(ver, code, lines, cr0, sr0, again=(cr, sr))
+            else:
+                got = impl.installed(ver, code, lines, cr, sr)
             # the property, against the independent schedule
             why = None
             if ver == "TLS13":
@@ -188,9 +220,8 @@ def main():
     suites = {b"\x13\x01": ("SHA256", 16), b"\x13\x02": ("SHA384", 32), b"\x13\x03": ("SHA256", 32), b"\x13\x04": ("SHA256", 16)}
     for n in range(0, 21):
         dcid = rb(n)
-        s = object.__new__(impl.qs.QuicSession)
-        s.keys, s.decryptors, s.quic_version, s.can_decrypt = {}, {}, impl.qd.QuicVersion.V1, True
         try:
+            s = new_quic_session(impl, [])
             s.set_initial_decryptor(dcid, False)
             got = " ".join(hx(s.keys[k]) for k in ["client_initial_key", "client_initial_iv", "client_initial_hp", "server_initial_key", "server_initial_iv", "server_initial_hp"])
             dk = s.decryptors["Initial"]
@@ -217,11 +248,8 @@ def main():
             secs = {lab: rb(hl) for lab in labs}
             lines = ["%s %s %s" % (lab, cr.hex(), v.hex()) for lab, v in secs.items()] + ["CLIENT_TRAFFIC_SECRET_0 %s %s" % (rb(32).hex(), rb(hl).hex())]
             rng.shuffle(lines)
-            s = object.__new__(impl.qs.QuicSession)
-            s.keys, s.decryptors, s.quic_version, s.can_decrypt, s.keylog = {}, {}, impl.qd.QuicVersion.V1, True, impl.keylog(lines)
-            s.epoch_client = s.epoch_server = s.last_key_phase_client = s.last_key_phase_server = 0
-            s.early_traffic_keys = False
             try:
+                s = new_quic_session(impl, lines)
                 s.set_tls_decryptors(cr, suite)
                 app = s.decryptors["Application"][0]
                 hs = s.decryptors["Handshake"]
